@@ -11,7 +11,7 @@ import os
 import traceback
 
 from . import sym, concrete
-from .contract import Sym, SpecCtx, Outcome, run_callable, set_options, _drain, _observe_args
+from .contract import PreconditionNotMet, Sym, SpecCtx, Outcome, run_callable, set_options, _drain, _observe_args
 from .interp import PyRaise, GenObj, Obj
 
 
@@ -204,7 +204,10 @@ def run_model(interp, contract, shape, vals, which):
         if which == 'body':
             fn = interp.lookup_qualname(contract.target)
             saved = interp.contracts
-            interp.contracts = {}
+            # no modular substitution in a replay -- except the *assumed* contracts, which give opaque model values (a string known
+            # only by the bits it denotes) their meaning
+            from .contract import REGISTRY as _REG
+            interp.contracts = {q: k for q, k in _REG.items() if k.kind == 'assumed' and k.spec is not None}
             try:
                 o = run_callable(interp, fn, args, kwargs)
             finally:
@@ -289,8 +292,10 @@ def replay(interp, contract, shape, vals):
                 set_options(interp, {})
             info['failed_clauses'] = failed
             info['reproduced'] = bool(failed)
+    except PreconditionNotMet as e:
+        info.update(reproduced=None, reason=f'outside the precondition: {e}', benign_skip=True)
     except (sym.NeedConcrete, sym.Unsupported) as e:
-        info.update(reproduced=None, reason=f'spec not executable on this input: {e}')
+        info.update(reproduced=None, reason=f'spec not executable on this input: {e}', benign_skip=True)
     except Exception as e:
         info.update(reproduced=None, reason='replay crashed: ' + traceback.format_exc().splitlines()[-1])
     return info
